@@ -412,3 +412,7 @@ def run(ctx, cfg=CFG):
     r5_hooks(ctx, cfg)
     r6_skip_pure(ctx, cfg)
     r7_content_cache(ctx, cfg)
+
+
+from .selftest import for_families as _ff  # noqa: E402
+selftest = _ff(['gate', 'loop'])
